@@ -194,8 +194,9 @@ pub fn verify(
     let signature_left = <&[u8; 32]>::try_from(&signature[0..32]).unwrap();
     let signature_right = <&[u8; 32]>::try_from(&signature[32..64]).unwrap();
 
+    // the verification equation uses -A: R = S * B - h * A
     let a = match Ge::from_bytes(public_key) {
-        Some(g) => g,
+        Some(g) => g.negate(),
         None => {
             return false;
         }
